@@ -67,7 +67,7 @@ class C19(Check):
                    'the string "discover"; a request truncated by the receive size is judged by what arrived']
     PROBES = ('c19.description-truncated', 'c19.responder-disabled', 'c19.non-request', 'c19.invalid-utf8',
               'c19.non-object-json', 'net.udp-lost', 'net.udp-duplicated', 'net.udp-reordered', 'net.udp-truncated',
-              'c19.near-budget', 'c19.server-mode', 'c19.server-responder-started', 'c19.requests-during-shutdown', 'fault.port-held-by-somebody-else',
+              'c19.near-budget', 'c19.server-mode', 'c19.server-responder-started', 'c19.requests-during-shutdown', 'c19.node-restart', 'fault.port-held-by-somebody-else',
               'fault.bind-address-in-use')
 
     def gen_case(self, rng, tier):
@@ -114,11 +114,13 @@ class C19(Check):
             shape['mode'] = 'server'
             shape['broadcast'] = True      # Server.run starts the responder with its default
             shape['shutdown_phase'] = rng.choice([0.05, 0.17, 0.29, 0.41, 0.53])   # against the 0.5 s poll of the tcp servers
+
             shape['ifaces'] = [f'tcp://{q}' for q in ports]
             shape['occupied'] = {str(q): rng.choice([None, None, 0.2, 1.0, 3.0, 6.0])
                                  for q in ports[1:] if rng.random() < 0.6}
             if rng.random() < 0.1:
                 shape['occupied'][str(ports[0])] = rng.choice([0.2, 3.0])
+            shape['restart'] = rng.random() < 0.3 and not shape['occupied']
             if len(shape['equipment_id']) < 1:
                 shape['equipment_id'] = 'node'
         return {'shape': shape, 'ops': ops}
@@ -193,6 +195,27 @@ class C19(Check):
                 c.close()
             except OSError as e:
                 ctx['idn'][q] = repr(e)
+        if shape.get('restart'):
+            # the node is restarted (Server.restart(), as the router does): the interfaces come up again, and discovery
+            # requests must be answered again
+            sim.count('c19.node-restart')
+            nopen = len([e for e in getattr(net, 'listen_log', ()) if e[3] == 'open'])
+            srv.restart()
+            up = sim.wait_until(lambda: len([e for e in getattr(net, 'listen_log', ()) if e[3] == 'open']) >= nopen + len(ctx['node_ports'])
+                                and all(net.listeners.get(q) is not None and net.listeners[q].accept for q in ctx['node_ports']),
+                                60, what='node restart')
+            time.sleep(1.0)
+            ctx['restart_up'] = bool(up)
+            ctx['restart_seq'] = sim.next_seq()
+            for s_ in net.udp_sockets:
+                if not s_.closed:
+                    s_.inject(b'{"SECoP": "discover"}', ('10.0.0.88', 48000))
+            time.sleep(1.0)
+            ctx['after_restart'] = [(q_, d_) for s_ in net.udp_sockets for (_t, q_, d_, a_) in s_.sent
+                                    if a_ == ('10.0.0.88', 48000)]
+            live = next((s_ for s_ in reversed(net.udp_sockets) if not s_.closed), sock)
+        else:
+            live = sock
         # discovery requests keep coming while the node shuts down: whatever it still answers must be true
         stop = []
 
@@ -200,7 +223,7 @@ class C19(Check):
             k = 0
             while not stop and k < 80:
                 k += 1
-                sock.inject(b'{"SECoP": "discover"}', ('10.0.0.77', 47000 + k))
+                live.inject(b'{"SECoP": "discover"}', ('10.0.0.77', 47000 + k))
                 time.sleep(0.03)
         pt = threading.Thread(target=prober, name='prober')
         pt.start()
@@ -211,6 +234,7 @@ class C19(Check):
         stop.append(1)
         pt.join()
         ctx['listen_log'] = list(getattr(net, 'listen_log', ()))
+        ctx['all_sent'] = sorted((x for s_ in net.udp_sockets for x in s_.sent), key=lambda x: x[1])
         ctx['ended'] = not th.is_alive()
         ctx['task_exc'] = next((repr(t.exc) for t in udp_tasks if t.exc is not None), None)
 
@@ -322,7 +346,7 @@ class C19(Check):
                                    'description': d}, ensure_ascii=False, separators=(',', ':')).encode('utf-8'))
         identity_fits = msg_len('') <= MAXLEN
         # ---- every datagram sent is a bounded, well-formed identity message
-        for _t, _q, data, addr in sock.sent:
+        for _t, _q, data, addr in ctx.get('all_sent') or sock.sent:
             site = None
             try:
                 obj = json.loads(data.decode('utf-8'))
@@ -354,6 +378,22 @@ class C19(Check):
                     break
             if obj['description'] != desc:
                 bump('c19.description-truncated')
+        # ---- after a restart of the node discovery requests are answered again (for every interface)
+        if shape.get('mode') == 'server' and 'after_restart' in ctx and ctx['enabled']:
+            if not ctx.get('restart_up'):
+                res.append(Violation('C19.no-answer-after-restart', 'interfaces-not-up',
+                                     f'60 s after Server.restart() the interfaces {ctx["node_ports"]} do not listen again'))
+            else:
+                got_ports = set()
+                for _q2, d2 in ctx['after_restart']:
+                    try:
+                        got_ports.add(json.loads(d2.decode('utf-8')).get('port'))
+                    except (UnicodeDecodeError, ValueError):
+                        pass
+                if not set(ctx['node_ports']) <= got_ports:
+                    res.append(Violation('C19.no-answer-after-restart', 'silent',
+                                         f'the node was restarted and listens on {ctx["node_ports"]} again, but a discovery '
+                                         f'request got answers for the ports {sorted(p_ for p_ in got_ports if p_)} only'))
         # ---- enabled unless the identity alone does not fit
         if not ctx['enabled']:
             bump('c19.responder-disabled')
@@ -406,7 +446,7 @@ class C19(Check):
                 except UnicodeDecodeError:
                     bump('c19.invalid-utf8')
         expected += [('10.0.0.99', 49999)] * len(ports)
-        answers = [a for _t, _q, _d, a in sock.sent if a[0] not in ('255.255.255.255', '10.0.0.77')]   # (not the shutdown prober)
+        answers = [a for _t, _q, _d, a in sock.sent if a[0] not in ('255.255.255.255', '10.0.0.77', '10.0.0.88')]   # (not the shutdown prober)
         if sorted(answers) != sorted(expected):
             missing = [a for a in set(expected) if expected.count(a) > answers.count(a)]
             extra = [a for a in set(answers) if answers.count(a) > expected.count(a)]
